@@ -3,6 +3,8 @@
     quinn-proto/src/connection/streams/{state,recv,mod}.rs by the correspondence check on every
     run ([FlowRecv.run] compared verbatim, [FlowRecv.oracle] evaluated on the implementation). *)
 From QV Require Import Lib.Tac Lib.Corr Model.FlowRecv Proofs.FlowRecvProofs Proofs.FlowRecvInv.
+From QV Require Lib.Bytes Model.DatagramState Proofs.DatagramProofs.
+From Coq Require Import List. Import ListNotations.
 Open Scope Z_scope.
 
 (** * over_limit_rejected *)
@@ -76,60 +78,43 @@ Proof.
 Qed.
 Print Assumptions C06_rejected_frame_changes_nothing.
 
-(** * accounting_exact (partial)
-    [Inv]: [local_max_data <= u64::MAX], [data_recvd <= local_max_data],
-    [data_recvd = sum of the ends of closed streams + sum over the map of end (final size once
-    reset)], and per open stream [0 <= end <= final size <= sent_max_stream_data].
-    Proved: [Inv] holds initially and is preserved by every incoming STREAM / RESET_STREAM frame
-    (for RESET_STREAM under the premise [bytes_read <= end] of the addressed stream), by stop,
-    the received_reset API, set_receive_window, open, accept, SendStream::reset and reset_acked.
-    Missing for the statement over all op sequences ([C06_accounting_exact_full]): preservation
-    by the read op and by control-frame transmission, and the assembler invariant
-    [bytes_read <= end] (needs the measure lemma of the received range set in unordered mode);
-    these are covered by the correspondence oracle on every run, not by proof. *)
-Theorem C06_accounting_exact_partial :
-  (forall sd mru mrb rw srw pmb pmu, 0 <= rw <= U64MAX -> 0 <= srw ->
-     Inv (init sd mru mrb rw srw pmb pmu)) /\
-  (forall s, Inv s ->
-     (forall id off len fin, Inv (fst (received true id off len fin s))) /\
-     (forall id code final,
-        (forall slot, alookup id (recvm s) = Some slot ->
-           bytes_read (rview s slot) <= r_end (rview s slot)) ->
-        Inv (fst (received_reset true id code final s))) /\
-     (forall id code, Inv (fst (stop_op true id code s))) /\
-     (forall id, Inv (fst (rreset_op id s))) /\
-     (forall w, Inv (fst (set_window_op w s))) /\
-     (forall d, Inv (fst (open_op d s)) /\ Inv (fst (accept_op d s))) /\
-     (forall id code, Inv (fst (sreset_op id code s)) /\ Inv (fst (reset_acked_op id s)))).
-Proof.
-  split; [exact init_Inv|]. intros s I.
-  split; [intros; apply received_Inv; assumption|].
-  split; [intros; apply received_reset_Inv; assumption|].
-  split; [intros; apply stop_op_Inv; assumption|].
-  split; [intros; apply rreset_op_Inv; assumption|].
-  split; [intros; apply set_window_op_Inv; assumption|].
-  split; [intros; split; [apply open_op_Inv|apply accept_op_Inv]; assumption|].
-  intros; split; [apply sreset_op_Inv|apply reset_acked_op_Inv]; assumption.
-Qed.
-Print Assumptions C06_accounting_exact_partial.
-
 Definition reach (cfg : list Z) (i : ops) : option st :=
   match cfg with
   | [0; sd; mru; mrb; rw; srw; pmb; pmu] =>
       Some (fst (run_from (step true) (init sd mru mrb rw srw pmb pmu) i))
   | _ => None
   end.
+
+(** * accounting_exact (all op sequences)
+    For every configuration and every sequence of ops of the component (STREAM / RESET_STREAM
+    frames with non-negative offsets, budgeted ordered and unordered reads, stop, received_reset,
+    set_receive_window, control-frame transmission, open, accept, SendStream::reset, reset_acked,
+    in any order), the reached state satisfies [Inv]:
+    [local_max_data <= u64::MAX], [data_recvd <= local_max_data],
+    [data_recvd = sum of the final ends of closed streams + sum over the map of end (final size
+    once reset)], and for every open stream [0 <= end <= final size <= sent_max_stream_data] and the
+    assembler invariant (everything buffered or delivered lies below [end]); hence
+    [0 <= bytes_read <= end].  No premise on panics: the invariant does not depend on them. *)
+Theorem C06_accounting_exact : forall sd mru mrb rw srw pmb pmu i s,
+  0 <= rw <= U64MAX -> 0 <= srw -> Forall op_wf i ->
+  reach [0; sd; mru; mrb; rw; srw; pmb; pmu] i = Some s ->
+  Inv s /\
+  Forall (fun p => match snd p with SOpen r => 0 <= bytes_read r <= r_end r | _ => True end) (recvm s).
+Proof.
+  intros sd mru mrb rw srw pmb pmu i s Hr Hs W H. unfold reach in H. inversion H; subst; clear H.
+  pose proof (run_from_Inv i _ (init_Inv sd mru mrb rw srw pmb pmu Hr Hs) W) as I.
+  split; [exact I|apply Inv_reads_bounded; exact I].
+Qed.
+Print Assumptions C06_accounting_exact.
+
 Definition cfg_ok (cfg : list Z) : Prop :=
   match cfg with
   | [0; sd; mru; mrb; rw; srw; pmb; pmu] => 0 <= rw < 2 ^ 62 /\ 0 <= srw < 2 ^ 62 /\ 0 <= mru /\ 0 <= mrb
   | _ => False
   end.
 
-(** Full statements (over all op sequences) — not proved; their observable content is what
-    [FlowRecv.oracle] checks on the implementation on every run. *)
-Definition C06_accounting_exact_full : Prop :=
-  forall cfg i s, cfg_ok cfg -> reach cfg i = Some s -> panic s = false ->
-    Inv s /\ Forall (fun p => match snd p with SOpen r => bytes_read r <= r_end r | _ => True end) (recvm s).
+(** Remaining full statements (over all op sequences) — not proved; their observable content is
+    what [FlowRecv.oracle] checks on the implementation on every run. *)
 Definition C06_buffered_bounded_full : Prop :=
   forall cfg i s, cfg_ok cfg -> reach cfg i = Some s -> panic s = false ->
     sum_unread (recvm s) <= rwin s + debt s /\
@@ -193,3 +178,30 @@ Example C06_example_flow_control :
   snd (received true 7 0 1 false s) = Err STREAM_LIMIT_ERROR /\
   data_recvd (fst (received true 3 0 16 false s)) = 16.
 Proof. vm_compute. repeat split; reflexivity. Qed.
+
+(** * Unread DATAGRAM payloads are bounded by the configured datagram receive buffer
+    (model Model/DatagramState.v, tied to connection/datagrams.rs by the `datagrams`
+    correspondence; proofs shared with C16).  An oversized DATAGRAM frame (or any DATAGRAM frame
+    when datagrams are disabled: no window) is refused — [Connection] turns that into
+    PROTOCOL_VIOLATION — and leaves the buffer untouched; an accepted one evicts the OLDEST
+    unread datagrams, as many as needed and no more, so that the bytes held for the application
+    never exceed the window [x], whatever sizes arrived before. *)
+Theorem C06_datagram_buffer_bounded : forall s d x,
+  DatagramProofs.Inv s -> Bytes.zlen d <= x ->
+  exists s' pre kept,
+    DatagramState.received s d (Some x) = DatagramState.Ok (s', Some (DatagramState.recv_buffered s =? 0)) /\
+    DatagramState.incoming s = pre ++ kept /\ DatagramState.incoming s' = kept ++ [d] /\
+    DatagramState.recv_buffered s' = DatagramState.sum_len (DatagramState.incoming s') /\
+    DatagramState.recv_buffered s' <= x.
+Proof.
+  intros s d x I L.
+  destruct (DatagramProofs.receive_overflow_drops_oldest s d x I L) as (s' & pre & kept & A & B & C & D & E & _).
+  exists s', pre, kept. repeat split; assumption.
+Qed.
+Print Assumptions C06_datagram_buffer_bounded.
+
+Theorem C06_oversized_datagram_refused : forall s d w,
+  (match w with None => True | Some x => x < Bytes.zlen d end) ->
+  DatagramState.received s d w = DatagramState.Ok (s, None).
+Proof. exact DatagramProofs.receive_rejects. Qed.
+Print Assumptions C06_oversized_datagram_refused.
